@@ -226,7 +226,7 @@ def check_pair(case):
 
 
 UNITS = [
-    Unit("pairs", check_pair, strategy=root_pairs, quick=1500, thorough=60000,
+    Unit("pairs", check_pair, essential_min=0.01, strategy=root_pairs, quick=1500, thorough=60000,
          essential=["only-false=version", "only-false=trusted_rule", "only-false=own_rule", "only-false=types",
                     "only-false=rootdeleg", "accept:rotated", "only-false=wf_N", "only-false=wf_T"],
          doc="verify_root verdict and error class == independent root-update rule, both directions"),
